@@ -86,3 +86,14 @@ Theorem C07_PadIfNeeded_sizes : forall mnd mnh mnw dvd dvh dvw pos rows cols sli
   axis_ok rows mnh dvh pt pb /\ axis_ok cols mnw dvw pl pr /\ axis_ok slices mnd dvd pf pk.
 Proof. exact pad_params_ok. Qed.
 Print Assumptions C07_PadIfNeeded_sizes.
+
+(* F.resize / Resize: the requested shape exactly, for every interpolation order and every input shape
+   (SciPy zoom is modelled by its output-extent rule int(round(n * z)) and, for order 0, its source index;
+   validated voxel by voxel against scipy.ndimage.zoom on every run) *)
+From DV.proofs Require Import Resample.
+From DV.gen Require Import Gen_cls_resize.
+Theorem C07_resize_returns_the_requested_shape : forall v H W D h w d order,
+  vshape v = (H, W, D) -> (0 < H)%Z -> (0 < W)%Z -> (0 < D)%Z ->
+  exists v', resize v h w d order = Ok v' /\ vshape v' = (h, w, d).
+Proof. exact resize_shape. Qed.
+Print Assumptions C07_resize_returns_the_requested_shape.
